@@ -9,6 +9,8 @@ import TlxVerif.Props.C12
 #print axioms TlxVerif.C12.destroyed_iff_no_handles
 #print axioms TlxVerif.C12.no_dangling
 #print axioms TlxVerif.C12.destroyed_exactly_when_last_handle_goes
+#print axioms TlxVerif.C12.deleter_invoked_iff_last_handle_released
+#print axioms TlxVerif.C12.deleter_runs_exactly_once
 #print axioms TlxVerif.C12.reach_inv
 #print axioms TlxVerif.C12.conc_safety
 #print axioms TlxVerif.C12.conc_terminal_destroyed_once
